@@ -101,8 +101,45 @@ def t_cancel(side, kind):
             h.prove(ops.equal(v2, want), f'{name}.releases-exactly-what-was-reserved')
             h.prove(h.spec('wf', v2), f'{name}.no-negative-balance')
             h.prove(ops.equal(o.f['status'], 'CANCELED'), f'{name}.order-is-cancelled')
+            # "also after any number of earlier cancellations": cancelling the same order again releases nothing
+            out_again = h.method_outcome(o, 'cancel')
+            v3 = h.spec('view', w.exchange, 'BTC-USDT', 'BTC')
+            h.prove(out_again.ok and ops.equal(v3, v2) is True, f'{name}.a-repeated-cancellation-releases-nothing')
             if side == 'buy' and kind == 'LIMIT':
                 h.prove(ops.equal(v2[0], v[0]), 'cancel.mustfail')
+    return t
+
+
+def t_cancel_after_other(side):
+    """history of two orders: another order of the same side is submitted first (it shares every mutable field default with this
+    one, as peewee hands the same default object to every record), then this one is submitted and cancelled: the cancellation
+    releases this order's own reservation - the balances are those after the first submission alone"""
+    def t(h):
+        w, q, p, v = pre(h, True)
+        store, trace = common.trades_store(h)
+        q2, p2 = h.real('q2'), h.real('p2')
+        h.assume(ops.compare('>', q2, 0))
+        h.assume(ops.compare('>', p2, 0))
+        other = mk_order(h, side, 'LIMIT', q2, p2)
+        o = mk_order(h, side, 'LIMIT', q, p)
+        h.cover('cancel-after-other.pre')
+        out1 = h.method_outcome(w.exchange, 'on_order_submission', other)
+        if not out1.ok:
+            return
+        v1 = h.spec('view', w.exchange, 'BTC-USDT', 'BTC')
+        out2 = h.method_outcome(w.exchange, 'on_order_submission', o)
+        if not out2.ok:
+            return
+        vboth = h.spec('view', w.exchange, 'BTC-USDT', 'BTC')
+        # either of the two may be the one that is cancelled
+        first = h.branch(h.bool('cancel_the_earlier_one'))
+        victim, vq, vp = (other, q2, p2) if first else (o, q, p)
+        want = h.spec('m_cancel', vboth, side, 'LIMIT', vq, vp)
+        out = h.method_outcome(victim, 'cancel')
+        h.prove(out.ok, f'cancel-after-other.{side}.no-exception', {'raised': out.exc})
+        if out.ok:
+            v2 = h.spec('view', w.exchange, 'BTC-USDT', 'BTC')
+            h.prove(ops.equal(v2, want), f'cancel-after-other.{side}.releases-its-own-reservation-whatever-else-was-submitted')
     return t
 
 
@@ -166,5 +203,7 @@ def tasks(tier):
             if kind != 'MARKET':
                 ts.append(Task(f'cancel.{side}.{kind}', t_cancel(side, kind), extra=x, overrides=dict(ov)))
             ts.append(Task(f'execute.{side}.{kind}', t_execute(side, kind), extra=x, overrides=dict(ov)))
+    for side in ('buy', 'sell'):
+        ts.append(Task(f'cancel-after-other.{side}', t_cancel_after_other(side), extra=x, overrides=dict(ov)))
     ts.append(Task('float-boundary', t_float_boundary, extra=dict(x, bounded='1024 decimal histories on the grid 0.05..3.3 (native, binary floats vs exact model)')))
     return ts
